@@ -483,4 +483,65 @@ def valLoop : Nat → ValEnv → List Block → List Block × Bool
     let (bs', env', c) := valPass env bs
     if c then valLoop fuel env' bs' else (bs', true)
 
+/-- the loops with the number of passes performed (the counter `passes` of the `verif` hook: the pass that finds nothing to update
+    is counted as well) -/
+def valLoopN : Nat → ValEnv → List Block → Nat → List Block × Bool × Nat
+  | 0, _, bs, n => (bs, false, n)
+  | fuel + 1, env, bs, n =>
+    let (bs', env', c) := valPass env bs
+    if c then valLoopN fuel env' bs' (n + 1) else (bs', true, n + 1)
+
+def degLoopN : Nat → DegEnv → List Block → Nat → List Block × Bool × Nat
+  | 0, _, bs, n => (bs, false, n)
+  | fuel + 1, env, bs, n =>
+    let (bs', env', c) := degPass env bs
+    if c then degLoopN fuel env' bs' (n + 1) else (bs', true, n + 1)
+
+/-- counting does not change what the loops compute, and a loop stopped by its budget has used all of it -/
+theorem valLoopN_spec : ∀ (fuel : Nat) (env : ValEnv) (bs : List Block) (n : Nat),
+    ((valLoopN fuel env bs n).1, (valLoopN fuel env bs n).2.1) = valLoop fuel env bs ∧
+    n ≤ (valLoopN fuel env bs n).2.2 ∧ (valLoopN fuel env bs n).2.2 ≤ n + fuel ∧
+    ((valLoopN fuel env bs n).2.1 = false → (valLoopN fuel env bs n).2.2 = n + fuel) := by
+  intro fuel
+  induction fuel with
+  | zero => intro env bs n; simp [valLoopN, valLoop]
+  | succ k ih =>
+    intro env bs n
+    rcases h : valPass env bs with ⟨bs', env', c⟩
+    cases c with
+    | true =>
+      have e1 : valLoopN (k + 1) env bs n = valLoopN k env' bs' (n + 1) := by simp [valLoopN, h]
+      have e2 : valLoop (k + 1) env bs = valLoop k env' bs' := by simp [valLoop, h]
+      rw [e1, e2]
+      obtain ⟨h1, h2, h3, h4⟩ := ih env' bs' (n + 1)
+      exact ⟨h1, by omega, by omega, fun hf => by have := h4 hf; omega⟩
+    | false =>
+      have e1 : valLoopN (k + 1) env bs n = (bs', true, n + 1) := by simp [valLoopN, h]
+      have e2 : valLoop (k + 1) env bs = (bs', true) := by simp [valLoop, h]
+      rw [e1, e2]
+      exact ⟨rfl, by simp, by simp, fun hf => by simp at hf⟩
+
+theorem degLoopN_spec : ∀ (fuel : Nat) (env : DegEnv) (bs : List Block) (n : Nat),
+    ((degLoopN fuel env bs n).1, (degLoopN fuel env bs n).2.1) = degLoop fuel env bs ∧
+    n ≤ (degLoopN fuel env bs n).2.2 ∧ (degLoopN fuel env bs n).2.2 ≤ n + fuel ∧
+    ((degLoopN fuel env bs n).2.1 = false → (degLoopN fuel env bs n).2.2 = n + fuel) := by
+  intro fuel
+  induction fuel with
+  | zero => intro env bs n; simp [degLoopN, degLoop]
+  | succ k ih =>
+    intro env bs n
+    rcases h : degPass env bs with ⟨bs', env', c⟩
+    cases c with
+    | true =>
+      have e1 : degLoopN (k + 1) env bs n = degLoopN k env' bs' (n + 1) := by simp [degLoopN, h]
+      have e2 : degLoop (k + 1) env bs = degLoop k env' bs' := by simp [degLoop, h]
+      rw [e1, e2]
+      obtain ⟨h1, h2, h3, h4⟩ := ih env' bs' (n + 1)
+      exact ⟨h1, by omega, by omega, fun hf => by have := h4 hf; omega⟩
+    | false =>
+      have e1 : degLoopN (k + 1) env bs n = (bs', true, n + 1) := by simp [degLoopN, h]
+      have e2 : degLoop (k + 1) env bs = (bs', true) := by simp [degLoop, h]
+      rw [e1, e2]
+      exact ⟨rfl, by simp, by simp, fun hf => by simp at hf⟩
+
 end Circomspect.Propagate
